@@ -98,6 +98,12 @@ def matrix_build(uncached):
         cell("T", "tq", "_model.P.qobj.qc(x)"),         # object-valued references read by attribute path
         cell("T", "tc", "_model.P.qcell(x)"),
         cell("T", "tr", "_model.P.Ch.r + x"),            # a reference of a child space read by absolute path
+        # a reference derived from the first of two bases that both define it, read by attribute path from outside:
+        # a base change re-binds the derived reference in place
+        {"op": "new_space", "name": "B2"},
+        {"op": "set_ref", "space": "B2", "name": "w", "value": {"lit": 75}, "via": "setattr"},
+        {"op": "new_space", "name": "D2", "bases": ["B", "B2"]},
+        cell("T", "tw2", "_model.D2.w + x"),
         {"op": "new_space", "name": "I", "formula": {"params": [["p", None]]}},
         {"op": "set_ref", "space": "I", "name": "t", "value": {"lit": 9}, "via": "setattr"},
         {"op": "new_space", "parent": "I", "name": "Ch"},
@@ -164,6 +170,7 @@ MATRIX_EDITS = {
     "override D.w": sref("D", "w", 700), "override D.bc": F("D", "bc", "-x"),
     "override J.bc": F("J", "bc", "-x - p"),
     "remove base D<-B": {"op": "remove_bases", "space": "D", "bases": ["B"]},
+    "remove base D2<-B": {"op": "remove_bases", "space": "D2", "bases": ["B"]},
     "remove base J<-B": {"op": "remove_bases", "space": "J", "bases": ["B"]},
     "add base Q<-B": {"op": "add_bases", "space": "Q", "bases": ["B"]},
     "add base I<-B": {"op": "add_bases", "space": "I", "bases": ["B"]},
